@@ -7,6 +7,19 @@ import random
 TEXTS = ["t", "hello", "OV", "lorem ipsum dolor", "x" * 40]
 
 
+def gen_style_spec(rng: random.Random) -> str:
+    """style-specific fields of a kitty format spec: `+[L][z<index>][m<0|1>][c<level>]`. The z-index field is
+    documented as ignored by `UrwidImage`; small values collide with the allocator's own 1, -1, 2, …"""
+    out = rng.choice(["", "", "L"])
+    if rng.random() < 0.75:
+        out += "z" + str(rng.choice([0, 1, -1, 2, -2, 3, 7, rng.randrange(-50, 50), 2**31 - 1, -(2**31) + 1]))
+    if rng.random() < 0.3:
+        out += "m" + rng.choice("01")
+    if rng.random() < 0.3:
+        out += "c" + str(rng.randrange(0, 10))
+    return "+" + out if out else "+z1"
+
+
 def gen_widgets(rng: random.Random, term: str):
     n = rng.choice([1, 2, 2, 3, 4])
     ws = []
@@ -19,7 +32,8 @@ def gen_widgets(rng: random.Random, term: str):
             "iw": rng.choice([4, 8, 16, 40, rng.randrange(4, 60)]),
             "ih": rng.choice([4, 8, 16, 40, rng.randrange(4, 60)]),
             "upscale": rng.random() < 0.6,
-            "fmt": rng.choice(["", "", "<", ">", ".^", "._", "<.^", ">._", "|.-"]) if rng.random() < 0.4 else "",
+            "fmt": (rng.choice(["", "", "<", ">", ".^", "._", "<.^", ">._", "|.-"]) if rng.random() < 0.4 else "")
+            + (gen_style_spec(rng) if style == "kitty" and rng.random() < 0.35 else ""),
             "color": [rng.randrange(256) for _ in range(3)],
         })
     return ws
@@ -62,6 +76,38 @@ def gen_box(rng, nw, W, H, depth=0):
     return gen_overlay(rng, nw, W, H, gen_box(rng, nw, W, H, depth + 1))
 
 
+def gen_caption_columns(rng, nw, W, H):
+    """Columns of equal fixed width, each a Pile: a caption of 1–3 rows, then an image of fixed height or
+    a fill, then the rest. Captions of different heights put canvas boundaries of one column inside the rows
+    of a neighbour's caption (shard tails); swapping columns moves the same cached image canvas horizontally."""
+    n = rng.choice([2, 3, 3, 4])
+    cw = max(2, min(12, (W - rng.choice([0, 0, 1, 3])) // n))
+    ih = rng.randrange(2, max(3, H - 3))
+    cols = []
+    for _ in range(n):
+        r = rng.random()
+        if r < 0.3:  # a plain column: one canvas from top to bottom, no boundary
+            cols.append([cw, ["fill", rng.choice("cde")]])
+            continue
+        if r < 0.65:  # caption (mostly 2–3 rows: a tail for the shorter captions to its left), image, rest
+            cap = rng.choice([2, 2, 3, 3, 1])
+            kids = [[cap, ["fill", "b"]], [ih, ["img", rng.randrange(nw)]], [None, ["fill", "."]]]
+        elif r < 0.85:
+            kids = [[rng.choice([1, 1, 1, 2]), ["fill", "a"]], [None, ["fill", "."]]]
+        else:
+            kids = [[rng.choice([1, 2, 3]), ["fill", "a"]], [rng.randrange(1, 3), ["fill", "-"]], [None, ["fill", "."]]]
+        if sum(h for h, _ in kids if h) >= H:
+            kids = [[None, ["fill", "."]]]
+        cols.append([cw, ["hpile", kids]])
+    if not any(c[0] == "hpile" and any(k[1][0] == "img" for k in c[1]) for _, c in cols):
+        cap = rng.choice([1, 2, 3])
+        if cap + ih < H:
+            cols[rng.randrange(n)] = [cw, ["hpile", [[cap, ["fill", "b"]], [ih, ["img", rng.randrange(nw)]], [None, ["fill", "."]]]]]
+    if n * cw < W:
+        cols.append([None, ["fill", " "]])
+    return ["fcols", cols]
+
+
 def gen_overlay(rng, nw, W, H, bottom):
     top = rng.choice([["ftext", "OV"], ["fill", "o"], ["lbox", ["fill", "x"]], ["img", rng.randrange(nw)]])
     align = rng.choice(["left", "center", "right", ["relative", rng.randrange(0, 101)]])
@@ -73,6 +119,21 @@ def mutate(rng, layout, nw, W, H):
     """the next layout of a history: small changes are what exposes stale views"""
     r = rng.random()
     k = layout[0]
+    if k == "fcols" and r < 0.85:
+        cols = [list(c) for c in layout[1]]
+        fixed = [i for i, c in enumerate(cols) if c[0] is not None]
+        a = rng.random()
+        if a < 0.7 and len(fixed) > 1:  # swap two columns: a purely horizontal move of whatever they hold
+            i, j = rng.sample(fixed, 2)
+            cols[i], cols[j] = cols[j], cols[i]
+        elif fixed:  # change a caption's height (a vertical move below it)
+            i = rng.choice(fixed)
+            kids = [list(kk) for kk in cols[i][1][1]] if cols[i][1][0] == "hpile" else [[None, None]]
+            if kids[0][0] is not None:
+                kids[0][0] = rng.choice([1, 2, 3])
+                if sum(h for h, _ in kids if h) < H:
+                    cols[i] = [cols[i][0], ["hpile", kids]]
+        return ["fcols", cols]
     if k == "overlay" and r < 0.5:
         if rng.random() < 0.5:
             return layout[2]  # close the overlay
@@ -117,8 +178,9 @@ def gen_script(rng: random.Random, tier: str = "quick"):
     nw = len(ws)
     sc = {"term": term, "W": W, "H": H, "widgets": ws, "cell": rng.choice([[4, 8], [4, 8], [5, 10], [8, 16]]),
           "kitty_supported": term != "other", "iterm2_supported": term != "kitty", "steps": []}
-    layout = gen_box(rng, nw, W, H)
-    n = rng.randrange(2, 9 if tier == "quick" else 14)
+    layout = (gen_caption_columns(rng, nw, W, H) if term != "other" and rng.random() < 0.25
+              else gen_box(rng, nw, W, H))
+    n = rng.randrange(5 if layout[0] == "fcols" else 2, 9 if tier == "quick" else 14)
     for i in range(n):
         r = rng.random()
         if i and r < 0.06:
@@ -132,9 +194,10 @@ def gen_script(rng: random.Random, tier: str = "quick"):
             # a canvas of the wrong size makes the base class raise: only as the last step (what the
             # screen shows after the caller broke draw_screen's precondition is not judged)
             sc["steps"].append({"op": "draw", "layout": layout, "badsize": True})
-        elif i and r < 0.19 and sc["steps"][-1]["op"] != "clear_images":
-            # at most one explicit clear between two redraws (docs/C18.md: the 3-cycle of disguises
-            # collides when a widget is cleared 3 times between two redraws)
+        elif i and r < 0.19 and not any(st["op"] == "clear_images" for st in sc["steps"]):
+            # at most one explicit clear per history (docs/C18.md: the 3-cycle of disguises collides when a
+            # widget is cleared 3 times between two emissions of a row; a redraw of an unchanged — possibly
+            # cached — canvas emits nothing, so "between two redraws" cannot be decided when generating)
             sc["steps"].append({"op": "clear_images",
                                 "widgets": [rng.randrange(nw) for _ in range(rng.choice([0, 1, 2, 3, 3]))]})
         else:
